@@ -157,6 +157,12 @@ func checkStr(c strCase) (fails []vf.Failure) {
 	if f := vf.Guard("Parse", func() { got, err = id62.Parse(c.S) }); f != nil {
 		return append(fails, *f)
 	}
+	if len(c.S) > 1 && c.S[0] == '-' {
+		// a negative number does not fit in 16 bytes whatever its magnitude
+		if v, ok := refValue(c.S[1:]); ok && v.Sign() > 0 && err == nil {
+			fails = append(fails, vf.Failf("accept|negative", "Parse(%q) accepted a negative value (got %x)", c.S, got[:]))
+		}
+	}
 	if v, ok := refValue(c.S); ok {
 		if v.Cmp(two128) >= 0 && err == nil {
 			fails = append(fails, vf.Failf("accept|overflow", "Parse(%q) accepted a value >= 2^128 (got %x)", c.S, got[:]))
@@ -297,7 +303,11 @@ var alnum = []rune("0123456789ABCDEFGHIJKLMNOPQRSTUVWXYZabcdefghijklmnopqrstuvwx
 
 func genStr() *rapid.Generator[strCase] {
 	return rapid.Custom(func(t *rapid.T) strCase {
-		switch rapid.IntRange(0, 6).Draw(t, "kind") {
+		switch rapid.IntRange(0, 7).Draw(t, "kind") {
+		case 7: // a sign in front of digits
+			n := rapid.SampledFrom([]int{1, 2, 21, 22, 23}).Draw(t, "signedlen")
+			rs := rapid.SliceOfN(rapid.SampledFrom(alnum), n, n).Draw(t, "d")
+			return strCase{S: rapid.SampledFrom([]string{"-", "+", "--", "-+"}).Draw(t, "sign") + string(rs)}
 		case 6: // spellings of 16-byte identifiers in other conventions: hex, UUID forms
 			hexd := []rune("0123456789abcdefABCDEF")
 			n := rapid.SampledFrom([]int{16, 21, 22, 23, 31, 32, 33}).Draw(t, "hexlen")
